@@ -955,25 +955,36 @@ static void run(const Scenario &sc, Reporter &rep) {
     }
     if (prog.T == "void") run_typed<void>(sc, rep, prog);
     else if (prog.T == "trk") run_typed<Tracked>(sc, rep, prog);
+#ifndef ASYNC_NO_REF
     else if (prog.T == "ref") run_typed<Tracked &>(sc, rep, prog);
+#endif
     else run_typed<int>(sc, rep, prog);
 }
 
 // what does async<T &>::join() hand out?  (the specification follows the code: constant JoinRef)
+// (-DASYNC_NO_REF: build without the reference-coroutine instantiation, used by the driver when the tree under test no
+// longer compiles it -- which the driver reports)
+#ifndef ASYNC_NO_REF
 static Tracked *g_probe_obj = nullptr;
 static cocls::async<Tracked &> probe_ref_coro() { co_return *g_probe_obj; }
+#endif
 
 int main(int argc, char **argv) {
     if (argc > 1 && !strcmp(argv[1], "--probe-join-ref")) {
+        const char *r = "unknown";
+#ifndef ASYNC_NO_REF
         Tracked obj(1);
         g_probe_obj = &obj;
-        decltype(auto) v = probe_ref_coro().join();
-        const char *r = "unknown";
-        if constexpr (std::is_reference_v<decltype(v)>) { if (&v == &obj && !obj.moved_from) r = "ref"; }
-        else if (obj.moved_from && !v.moved_from && v.copies == 0) r = "moves";
-        else if (!obj.moved_from && v.copies == 1) r = "copies";
+        try {
+            decltype(auto) v = probe_ref_coro().join();
+            if constexpr (std::is_reference_v<decltype(v)>) { if (&v == &obj && !obj.moved_from) r = "ref"; }
+            else if (obj.moved_from && !v.moved_from && v.copies == 0) r = "moves";
+            else if (!obj.moved_from && v.copies == 1) r = "copies";
+        } catch (...) {}
+#endif
         printf("JOINREF %s\n", r);
-        return 0;
+        fflush(stdout);
+        _exit(0);
     }
     return replay_main(std::cin, run);
 }
